@@ -12,3 +12,7 @@ def targets(eng):
                                   "_handle_disconnect_request_internal", "_async_send_keep_alive", "_async_pong_not_received",
                                   "_connect_resolve_host", "_connect_socket_connect", "_connect_init_frame_helper", "start_connection", "finish_connection", "disconnect",
                                   "send_messages_await_response_complex"], ["C05"])
+
+
+# built-in mutants of the real source text for the thorough tier's self-check (each must be refuted by a named obligation)
+MUTANTS = [("closed-not-final", "aioesphomeapi/connection.py", "            and state is not CONNECTION_STATE_CLOSED\n        ):", "            and state is CONNECTION_STATE_CONNECTED\n        ):")]
